@@ -38,20 +38,20 @@ def backward_cases(ctx, n2=None):
     g2 = cc.geometry_2d(rng, ctx.quick)
     g1 = cc.geometry_1d(rng, ctx.quick)
     k = 0
-    for g in g2:
+    for gi, g in enumerate(g2):
         for op in OPS2:
             k += 1
             data = "distinct"
-            if op.startswith("max") and k % 5 == 0:
+            if op.startswith("max") and gi % 4 == 0:
                 data = "ints"            # repeated values: ties inside windows
             P = cc.make_payload(rng, op, g, bias=(k % 2 == 0), form="tuple" if k % 3 else "int", data=data)
             if P["form"] == "int" and (g["kH"], g["sH"], g["pH"], g["dH"]) != (g["kW"], g["sW"], g["pW"], g["dW"]):
                 P["form"] = "tuple"
             cases.append((P, (op,) + cc.descr2(g), cc.nontrivial2(g), data))
-    for g in g1:
+    for gi, g in enumerate(g1):
         for op in OPS1:
             k += 1
-            data = "ints" if (op.startswith("max") and k % 5 == 0) else "distinct"
+            data = "ints" if (op.startswith("max") and gi % 4 == 0) else "distinct"
             P = cc.make_payload(rng, op, g, bias=(k % 2 == 0), data=data)
             cases.append((P, (op, g["k"], g["s"], g["p"], g["d"], g["W"]), cc.nontrivial1(g), data))
     return cases, len(g2), len(g1)
@@ -104,7 +104,8 @@ def run_part_c02(ctx):
             verdicts.append((len(terms) - 1, {"expected": "backward(g) completes", "observed": "raises " + rb[1], "note": "backward raised"}))
             continue
         grads = rb[1]["grads"]
-        terms.append(cc.term_backward(P, grads)); payloads.append(P); descr.add(d)
+        # the forward result is part of the case: the backward kernels are the VJP of the *modelled* forward
+        terms.append("(%s) && (%s)" % (cc.term_forward(P, ("ok", r[1]["out"])), cc.term_backward(P, grads))); payloads.append(P); descr.add(d)
         if nt:
             nontriv.add(d)
         # cheap oracle on every case: torch autograd (where torch has the configuration); at ties: subgradient conditions
@@ -124,7 +125,7 @@ def run_part_c02(ctx):
     mism = list(errors) + [{"case": i, "input": payloads[i]} for i in bad[:50]]
     ctx.tie("convpool/backward kernels (x, weight, bias gradients)", "correspondence", len(terms), len(nontriv), mism, exhaustive=True,
             note="same geometry grid as C06 (%d 2-D, %d 1-D geometries) x ops; distinct integer upstream gradients (multiples of the kernel size for the "
-                 "average pools); every fifth max-pool case has repeated values (ties: the model must put the gradient on the first maximum)" % (n2, n1))
+                 "average pools); every fourth max-pool geometry has repeated values (ties: the model must put the gradient on the first maximum)" % (n2, n1))
     # violation search: finite differences + torch on the flagged cases (tie mismatches, torch disagreements), smallest first, and on a sample
     flagged = sorted(set(bad) | set(torch_flag), key=lambda i: len(json.dumps(payloads[i])))
     sample = [i for i in rng.sample(range(len(terms)), min(len(terms), 25 if ctx.quick else 150)) if i not in flagged]
